@@ -46,7 +46,9 @@ META = dict(
     technique='sibling agreement of the numexpr-string and NumPy branches '
               '(canonical forms); class-diff + linearity of the aberration phase; '
               'dependence of the cutoff on the instance quadrature; shape-order '
-              'consistency between meshgrid and reshape; C05\'s rotation rules',
+              'consistency between meshgrid and reshape; C05\'s rotation rules'
+              '; constructor / factory parity of the aberrated and plain classes (arg'
+              'uments forwarded unchanged); index-convention rule shared with C02',
     level_text='Static: V1, V2 are identities for all inputs; V3, V4 are structural '
                'necessary conditions of "refining the quadrature does not change the '
                'result" and of agreement at every polarisation.  Numerical agreement '
